@@ -998,7 +998,7 @@ def make_case(pid, rng, tier, i):
 
 def run_one(pid, res, case, tier):
     """One case under the box-nesting sanitizer (tracers must never reach raw NumPy as object arrays or
-    inside raw containers, and a box may only wrap a box of a strictly smaller trace)."""
+    inside raw containers, and a box may only wrap a box of a trace that is not later)."""
     probs = getattr(PROBES, "box_problems", None)
     n0 = len(probs) if probs is not None else 0
     try:
